@@ -114,6 +114,18 @@ def _r1(ctx, repo, md, nad):
                   "os.replace(temp, path) publishes the checkpoint", f"`{short(call, 60)}` is not os.replace(<temp>, {path_p})")
         ctx.check(g.dominated_by_any(r, set(saves)), "R1", md, call, "_atomic_save_checkpoint", call,
                   "os.replace is reached only after torch.save returned", "os.replace can be reached without a completed torch.save")
+    # the exceptional exits of torch.save (disk full, interrupt) must not reach os.replace: a finally-block publish would replace the
+    # last good checkpoint by a torn temp file
+    for s_ in saves:
+        for b, lab in g.succ[s_]:
+            if lab != "exc":
+                continue
+            after_exc = g.reachable(b) | {b}
+            hit = [r for r in repl if r in after_exc]
+            ctx.check(not hit, "R1", md, g.nodes[hit[0]].stmt if hit else g.nodes[s_].stmt, "_atomic_save_checkpoint", g.nodes[hit[0]].stmt if hit else "exception exit of torch.save",
+                      "when torch.save raises, no path publishes the temp file",
+                      "os.replace is reachable after torch.save raised (it sits in a finally / except path): a checkpoint write that fails half-way (disk full, quota, "
+                      "KeyboardInterrupt) overwrites the last good checkpoint with a torn file")
     # no other write to `path`
     for c in calls_in(f):
         cn = call_name(c) or ""
